@@ -142,9 +142,28 @@ func HyperTree.Add
 func HyperTree.AddBulk
   requires len(eventDigests) > 0
   modifies everything
+// ASSUMED (search code not verified): the search walks from height 8*len(index)
+// down through the batch cache, which is laid out for a 256-level tree
+func pruneToFind
+  requires 8 * len(index) <= 256
+  ensures result != nil && len(*result) >= 1
+
+immutable HyperTree.hasher, HyperTree.hasherF, HyperTree.log, HyperTree.batchLoader, HyperTree.cache, HyperTree.cacheHeightLimit, HyperTree.defaultHashes by NewHyperTree, NewHyperTreeWithLogger, HyperTree.Close
+
+// an open hyper tree: built by NewHyperTree*, until Close
+define HyperOK(t) = t != nil && !isnil(t.hasher) && int(hashlen(t.hasher)) <= 256 && !isnil(t.log) && t.hasherF != nil && nonnil_fn(t.hasherF)
+
+// a digest whose length is not the hasher's is refused before the search (C11);
+// Fatalf on an interpreter error is an explicit exit no request is known to reach
 func HyperTree.QueryMembership
+  props C11
+  requires HyperOK(t)
+  may_panic
   modifies everything
+  ensures C11/wrong-length-refused: 8 * len(eventDigest) != int(hashlen(t.hasher)) ==> !isnil(result_1)
   ensures isnil(result_1) ==> result_0 != nil
+  // ASSUMED: what the tree stores for a digest is its 8-byte version (or nothing)
+  assumes isnil(result_1) ==> len(result_0.Value) == 0 || len(result_0.Value) >= 8
 func HyperTree.Close
   modifies everything
 
